@@ -65,3 +65,41 @@ UNITS = [
          fingerprints=[(VEC + '{impl FromIterator<f64> for Vector}::from_iter', '{ Self { v: Vec::from_iter(iter) } }')],
          notes='tabulated-sample trapezoid equals the integral of the piecewise-linear interpolant for given abscissae, spacing, or default 1; inconsistent arguments rejected'),
 ]
+
+
+def extras(tier, crate, seed):
+    """Gauss-Legendre tables: exact rational evaluation of the even-moment equations sum_i 2 w_i x_i^(2k) = 2/(2k+1), k = 0..4,
+    on the decimal literals found in the current tree (degree <= 9 exactness of the symmetric 10-point rule reduces to them)."""
+    import re
+    from fractions import Fraction
+    out = {'name': 'quad5-moment-equations', 'fn': 'integrate::functions::GAUSS_QUAD_NODES/WEIGHTS', 'clause': 'C07.quad5.moments', 'counts_as': 'proof',
+           'obligations': 5, 'backend': 'exact rational arithmetic (python fractions) on the literals sliced from the expanded crate'}
+    try:
+        vals = {}
+        for nm in ('GAUSS_QUAD_NODES', 'GAUSS_QUAD_WEIGHTS'):
+            it, _ = crate.find('integrate::functions::' + nm)
+            txt = crate.src[it.start:it.end]
+            body = txt[txt.index('=') + 1:]
+            vals[nm] = [Fraction(x) for x in re.findall(r'[0-9]+\.[0-9]+(?:[eE][+-]?[0-9]+)?', body)]
+        xs, ws = vals['GAUSS_QUAD_NODES'], vals['GAUSS_QUAD_WEIGHTS']
+        if len(xs) != 5 or len(ws) != 5:
+            out.update(status='undecided', reason='tables do not have 5 entries each: %d nodes, %d weights' % (len(xs), len(ws)))
+            return [out]
+        worst = Fraction(0)
+        bad = []
+        for k in range(5):
+            lhs = sum(2 * w * x ** (2 * k) for w, x in zip(ws, xs))
+            err = abs(lhs - Fraction(2, 2 * k + 1))
+            worst = max(worst, err)
+            if err > Fraction(1, 10 ** 14):
+                bad.append((k, float(err)))
+        out['detail'] = {'max_residual': float(worst), 'nodes': [float(x) for x in xs], 'weights': [float(w) for w in ws]}
+        if bad:
+            out.update(status='failed', message='Gauss-Legendre moment equation(s) violated: %s' % bad,
+                       rendered='sum_i 2 w_i x_i^(2k) - 2/(2k+1) for the tables in the tree: %s' % bad,
+                       input='quad5(|x| x.powi(%d), -1., 1.)' % (2 * bad[0][0]))
+        else:
+            out['status'] = 'ok'
+    except Exception as e:
+        out.update(status='undecided', reason='cannot slice the quadrature tables: %s' % e)
+    return [out]
